@@ -270,3 +270,18 @@ Theorem visited_cells_complete :
   In k (cells_for_edge B left_only right_only lower_only upper_only split_u split_v child_ij cells segments).
 Proof. exact Proofs.C06_Descent.edge_complete. Qed.
 Print Assumptions visited_cells_complete.
+
+(** Both directions when the target is exactly an index cell that lists no edge: ContainsCell is
+    exactly "the centre is inside" by brute force, IntersectsCell is true. Only [index_ok]. *)
+Theorem cell_relations_edge_free :
+  forall (point : Type) (crossing_sign : point -> point -> point -> point -> crossing)
+         (vertex_crossing : point -> point -> point -> point -> bool) (cell_center : Z -> point)
+         (approx_meets : point * point -> Z -> bool)
+         (s : qshape point) (ref : point) (ref_inside : bool) (idx : index) (pos : Z) (cl : clipped),
+  index_ok point crossing_sign vertex_crossing cell_center [s] (fun _ => ref) (fun _ => ref_inside) idx ->
+  0 <= pos < lenZ idx -> entry idx pos 0 = Some cl -> cl_edges cl = [] ->
+  contains_cell point crossing_sign vertex_crossing cell_center approx_meets s idx (cell_id idx pos) =
+    Some (brute_contains point crossing_sign vertex_crossing s ref ref_inside (cell_center (cell_id idx pos))) /\
+  intersects_cell point crossing_sign vertex_crossing cell_center approx_meets s idx (cell_id idx pos) = Some true.
+Proof. exact Proofs.C06_CellRel.cell_relations_edge_free. Qed.
+Print Assumptions cell_relations_edge_free.
